@@ -17,7 +17,7 @@
   Supplied as inputs, not verified: the outcome of `re.search` (a function regex → file name → Bool, `none`
   when the regex does not compile), the outcome of `pickle.dumps` per local variable (`Local.picklable`), and
   `pickle.loads (pickle.dumps v) = v` (a saved value is represented by the canonical text of the live value).
-  `str.isidentifier` is modelled for ASCII names only.
+  `str.isidentifier` is exact for ASCII names; non-ASCII characters are taken to be identifier characters.
 
   `Cfg` selects between the code as it is and the two proposed repairs (fixes/C17-D7.diff, fixes/C17-D2.diff);
   the harness probes the tree under test and passes the flags, so the correspondence check follows the tree.
@@ -314,9 +314,11 @@ def VarArg.truthy : VarArg → Bool
   | .list l => !l.isEmpty
   | .other t => t
 
-def isIdentStart (c : Char) : Bool := c.isAlpha || c == '_'
+/-- ASCII letters and `_`; every non-ASCII character is taken to be an identifier character (an over-approximation
+    of XID_Start / XID_Continue: the generators only use non-ASCII characters that are, e.g. `é`, `変数`) -/
+def isIdentStart (c : Char) : Bool := c.isAlpha || c == '_' || decide (c.toNat ≥ 128)
 
-/-- `str.isidentifier` restricted to ASCII -/
+/-- `str.isidentifier` (exact for ASCII names) -/
 def isIdent : Str → Bool
   | [] => false
   | c :: cs => isIdentStart c && cs.all (fun c => isIdentStart c || c.isDigit)
@@ -326,6 +328,8 @@ def keywords : List Str :=
    "elif", "else", "except", "finally", "for", "from", "global", "if", "import", "in", "is", "lambda", "nonlocal",
    "not", "or", "pass", "raise", "return", "try", "while", "with", "yield"].map String.toList
 
+/-- `_is_variable_name_valid`: an identifier that is not a HARD keyword (`keyword.iskeyword`); the soft keywords
+    `_`, `match`, `case`, `type` are valid variable names -/
 def validName (s : Str) : Bool := isIdent s && !keywords.contains s
 
 def itemStrs : List VarItem → Option (List Str)
